@@ -20,12 +20,20 @@ DRIVERS = {
     'C02': ('replayers.sched', dict(dynamic=False)),
     'C06': ('replayers.sched', dict(dynamic=False)),
     'C05': ('replayers.sched', dict(dynamic=True)),
+    'C03': ('replayers.envw', dict(prop='C03')),
+    'C04': ('replayers.envw', dict(prop='C04')),
+    'C13': ('replayers.envw', dict(prop='C13')),
+    'C20': ('replayers.envw', dict(prop='C20')),
 }
 
 
 def load_contracts():
     import contracts.all      # noqa: F401
     from pyvc.specs import REG
+    # names of repository classes used inside predicates (resolved through the class table by the prover)
+    import contracts.core as cc
+    import ECAgent.Environments as E
+    cc.PositionComponent = E.PositionComponent
     return REG
 
 
